@@ -107,6 +107,11 @@ class Driver:
             if not pool:
                 continue
             rid = pool[s["r"] % len(pool)]
+            if s.get("noise"):
+                # an event of a kind the receiver has no handler for: it is ignored and must not disturb the others
+                model.enqueue_event(Event("noise", agent.id, rid, data=None))
+                self.flags.add("unhandled-kind")
+                continue
             self.serial += 1
             delay = s.get("delay")
             rec = {"serial": self.serial, "g": self.g, "receiver": rid, "delay": None if delay is None else Fraction(delay),
@@ -314,7 +319,8 @@ def case_strategy(max_steps):
             rounds = None
         send = st.fixed_dictionaries({"s": st.integers(0, 5), "r": st.integers(0, 8), "live": st.booleans(),
                                       "delay": delay_strategy(dt),
-                                      "bcast": st.sampled_from([None, None, None, None, "A"])})
+                                      "bcast": st.sampled_from([None, None, None, None, "A"]),
+                                      "noise": st.sampled_from([False, False, False, False, True])})
         gap = st.one_of(
             st.tuples(st.just("del"), st.integers(0, 5)).map(list),
             st.tuples(st.just("create"), st.sampled_from([p[0] for p in pop])).map(list),
